@@ -85,6 +85,10 @@ SUMMARY = {
 'c08ra':'table variant batches output in an 8 KiB Vec; a piece that exactly fills the batch is written directly ahead of the still-pending batch: bytes reordered',
 'c17ra':'roll buffer recycled per thread by a Drop impl that skips the reset when absolute_pos == 0: a stream search whose first fill got a short read and then an error leaves stale bytes for the next stream search on that thread',
 'c18ra':'fill() uses read_vectored with an 8 KiB lookahead; a read error right after lookahead bytes were moved in is dropped (needs a vectored reader, a stream > 64 KiB and a transient error)',
+'c07rb':'start-state self-loop skip table in the stream loop filled with `for byte in 0..u8::MAX`: byte 0xFF is always treated as staying in the start state, patterns beginning with 0xFF are never found in streams',
+'c08rb':'roll-buffer capacity clamped to 1 MiB without keeping it above the longest pattern: with a pattern >= 1 MiB the first refill offers an empty slice, Ok(0) is taken for EOF (rediscovery of c07t)',
+'c17rb':'noncontiguous NFA caches a match-list cursor in three relaxed atomics; only index-0 calls record the owning state but every call overwrites the position: interleaved overlapping searches report a wrong pattern',
+'c18rb':'on a read error the replace driver first writes the held-back unsearched tail verbatim (rediscovery of c18d)',
 'c18a':'fill returns Ok(true) instead of the error when it had already buffered bytes in the same call: one-shot read errors during the initial fill vanish',
 'c18b':'closure errors of kind Interrupted are retried by calling the closure again: error swallowed, partial output duplicated',
 'c18c':'fill commits its new end only after the loop: an error on a later read of one fill discards bytes accepted earlier; polling on shifts all later offsets',
